@@ -141,7 +141,7 @@ append = Contract(
     raises=[Raises(OverflowError,
                    when="self.size + len(data) + 12 > 1500 or len(self.data) > 14",
                    ensures={"unchanged": "self.size == old.self.size and "
-                            "len(self.data) == len(old.self.data)"})],
+                            "len(self.data) == len(old.self.data)"}, keeps_state=True)],
     modifies=["self.size", "self.data", "self.goff"],
     canaries={"window_off_by_one":
               "result == (old.self.size + 10, old.self.size + 11 + len(data))"},
@@ -150,6 +150,9 @@ append = Contract(
 # frame of the exceptional exit: nothing at all may change
 append.raises[0].ensures["frame"] = (
     "all(self.data[j] == old.self.data[j] for j in range(len(self.data)))")
+append.raises[0].ensures["ghost_unchanged"] = (
+    "len(self.goff) == len(old.self.goff) and "
+    "all(self.goff[j] == old.self.goff[j] for j in range(len(self.goff)))")
 
 full = Contract(
     Packet.full,
